@@ -21,7 +21,7 @@ COMMON_OVERLAY_E = {
     "zzverif/json.go": "harness/zzverif/json.go",
 }
 
-DEFAULT_INIT = [MOD + "/http"] + [MOD + "/internal/" + p for p in
+DEFAULT_INIT = [MOD + "/http", "buf.build/gen/go/bufbuild/protovalidate/protocolbuffers/go/buf/validate"] + [MOD + "/internal/" + p for p in
                                   ("annotations", "httpgen", "clientgen", "tscommon", "tsclientgen", "tsservergen", "openapiv3")]
 
 COMMON_ASSUMPTIONS = [
@@ -105,7 +105,7 @@ PROPERTIES = {
                                      "binary transport: decoding the bytes of one message type as another type is outside the model (client mapping checked only where types coincide)",
                                      "request/header validation failures (BindingMiddleware exits), field paths of rule violations, and the TS client/server are not yet part of this check"]),
     "C19": dict(mode="G", load_pkgs=["./internal/openapiv3"], pkgpath=MOD + "/internal/openapiv3", test_pkg="./internal/openapiv3", test_pkgname="openapiv3",
-                init=DEFAULT_INIT + ["buf.build/gen/go/bufbuild/protovalidate/protocolbuffers/go/buf/validate"],
+                init=DEFAULT_INIT,
                 overlay={"internal/openapiv3/zz_verif_c19.go": "harness/c19/c19_rules.go"},
                 harnesses=[dict(func="VerifC19Int32", reach=["C19/int32/decided", "C19/int32/exclusive"], quick=dict(budget=200), thorough=dict(budget=600)),
                            dict(func="VerifC19Uint32", reach=["C19/uint32/decided"], quick=dict(budget=200), thorough=dict(budget=600)),
@@ -144,5 +144,5 @@ PROPERTIES = {
                                 reach=["C16/main/setup-error-returned", "C16/main/setup-ok"], quick=dict(budget=100), thorough=dict(budget=300))],
                 bounds_text={"quick": "message graphs: 3 messages x 2 message-typed fields each with arbitrary targets (direct and mutual recursion included), second edge singular or repeated; budgets: tscommon 60k, generators 3M executed SSA instructions and call depth 120; deep diamond: 16 levels x 2 references; name kernels: strings <= 4-5 over [ab_], [aAX-], [aAZ0]; openapiv3 main: Options.New stubbed with an arbitrary (plugin | error) result"},
                 assumptions=["termination is decided as 'finishes within a stated work budget and call depth on every graph in the bound' - wall time and memory as such are not measured",
-                             "openapiv3 collectMessageRecursive/processMessage (libopenapi objects) are not inside this check yet; only its main set-up path is"]),
+                             "openapiv3: CollectReferencedMessages (incl. processMessage over real libopenapi objects) and the main set-up path are covered; ProcessService/Render are not"]),
 }
